@@ -39,7 +39,7 @@ def parse_ddfile(text):
     if not text.endswith('\n') or lines[0] != 'ninja_dyndep_version = 1': return None
     res = []
     for l in lines[1:-1]:
-        if l == '  restat = 1':
+        if l.startswith('  restat = ') and len(l) > len('  restat = '):
             if not res or res[-1][3]: return None
             res[-1] = res[-1][:3] + (True,)
             continue
